@@ -91,7 +91,7 @@ CHECKS["C11"] = dict(level="translation_validation", design="5 C11",
    technique="TLA+-enumerated program space (TLC) + translation validation: cluster plan vs local plan of the real planner executed on split data")
 
 CHECKS["C16"] = dict(level="exploration", design="5 C16",
-   text="spec/Robust.tla gives the abstract input space (statement kind; for SELECT a base shape and up to two of 39 malformation operators: dropped / duplicated / reordered clauses, truncation, unbalanced parentheses, unknown table / field / function, wrong arity and argument kind for the functions of sql.go, bad durations and time ranges, deep nesting, keywords as identifiers, unclosed quotes, escape characters and doubled quotes inside each kind of quoting, huge numbers, control bytes, several statements; 32 classes of insert payloads x entry point) and the state machine that says what must survive (alive, pipeline running, every valid point reflected by the next probe; checked by TLC). TLC enumerates the inputs, each is rendered in several concrete variants (the variants of an operator are cycled through, so all of them are used) and submitted under recover to sql.Parse, DB.Query (planner) + Iterate and the rpc query endpoint, resp. DB.Insert, DB.InsertRaw, the HTTP insert handler and the rpc insert stream, interleaved with valid points and probes; a panic, a crashed process or a probe that does not see every valid point is a violation.",
+   text="spec/Robust.tla gives the abstract input space (statement kind; for SELECT a base shape and up to two of 40 malformation operators: dropped / duplicated / reordered clauses, truncation, unbalanced parentheses, unknown table / field / function, wrong arity and argument kind for the functions of sql.go, bad durations and time ranges, deep nesting, keywords as identifiers, unclosed quotes, escape characters and doubled quotes inside each kind of quoting, quotes inside comments, huge numbers, control bytes, several statements; 32 classes of insert payloads x entry point) and the state machine that says what must survive (alive, pipeline running, every valid point reflected by the next probe; checked by TLC). TLC enumerates the inputs, each is rendered in several concrete variants (the variants of an operator are cycled through, so all of them are used) and submitted under recover to sql.Parse, DB.Query (planner) + Iterate, DB.Query on a cluster leader (the distributed planner's textual rewrite) and the rpc query endpoint, resp. DB.Insert, DB.InsertRaw, the HTTP insert handler and the rpc insert stream, interleaved with valid points and probes; a panic, a crashed process or a probe that does not see every valid point is a violation.",
    note="Structural classes only - no byte-level fuzzing; functions that need external services (redis, geo, isp) only with wrong arities / argument kinds. Replication is probed with odd payloads and valid points through the leader of an in-process cluster. Known finding D12 (far-future timestamps) is listed in known_findings.json and exercised in processes of its own under a memory limit.",
    technique="TLA+-enumerated input space (TLC) replayed on the real entry points under recover, with valid traffic and probes in between")
 
